@@ -1145,6 +1145,32 @@ func c06SharedRun(c *fw.Ctx, b fw.Batch) {
 	}
 	// one detection of a text with a single line of more than 1 MiB (limit 0) first: whatever
 	// the pooled readers / parsers are left with must not be shared by two later detections
+	// many DISTINCT strings through the comparison helpers from several goroutines at once (a cache
+	// of parsed names that fills up and is reset must stay safe and must not change any answer)
+	{
+		node := mimetype.Lookup("text/plain")
+		var wgc sync.WaitGroup
+		var wrongAns int64
+		for g := 0; g < 8; g++ {
+			wgc.Add(1)
+			go func(g int) {
+				defer wgc.Done()
+				for i := 0; i < 1500; i++ {
+					own := fmt.Sprintf("Text/Plain ; n=%d-%d", g, i)
+					other := fmt.Sprintf("application/x-never-%d-%d", g, i)
+					if !node.Is(own) || node.Is(other) || !mimetype.EqualsAny(own, other, "text/plain") || mimetype.EqualsAny(other, own) {
+						atomic.AddInt64(&wrongAns, 1)
+					}
+				}
+			}(g)
+		}
+		wgc.Wait()
+		c.Eval(8 * 1500 * 4)
+		c.Count("distinct_names_through_is_and_equalsany", 8*1500*2)
+		if wrongAns > 0 {
+			c.Violate("half-built-format", "Is/EqualsAny with many distinct strings", fmt.Sprintf("%d wrong answers from Is / EqualsAny while 8 goroutines passed 24000 distinct strings through them", wrongAns), c06Payload{What: "liveness"})
+		}
+	}
 	poisonA := append(bytes.Repeat([]byte("a,b;c "), 220000), "\n1,2\n"...)
 	poisonB := append(append([]byte("[\""), bytes.Repeat([]byte("x"), 1200000)...), "\"]"...)
 	poison := func() {
